@@ -143,6 +143,10 @@ pub fn run(ctx: &mut Ctx) {
             }
         }
         ctx.note("seam_layouts_per_pass", json!(SeamParams::count()));
+        // ---- bounded-exhaustive line sequences without unwrap-blocks
+        super::docs::lineseq_stage(ctx, if quick { 6 } else { 8 }, 0.8, false, |ctx, rd, sp| {
+            judge_one(ctx, rd, sp, &step_cfg(STEP), STEP, "lineseq");
+        });
         // ---- G-ast default-strategy block documents
         let total = 80_000 * scale;
         for i in (shard..total).step_by(n as usize) {
@@ -183,6 +187,10 @@ pub fn run(ctx: &mut Ctx) {
         judge_one(ctx, &rd, &sp, &cfg, STEP, "unwrap-layouts");
     }
     ctx.note("unwrap_layout_skeletons", json!(UnwrapParams::count()));
+    // ---- bounded-exhaustive line sequences (unwrap-blocks with every kind of line around / inside)
+    super::docs::lineseq_stage(ctx, if quick { 6 } else { 8 }, 0.8, true, |ctx, rd, sp| {
+        judge_one(ctx, rd, sp, &step_cfg(STEP), STEP, "lineseq");
+    });
     // ---- G-ast with unwrap blocks; default-strategy elements only inside unwrap bodies
     let total = 80_000 * scale;
     for i in (shard..total).step_by(n as usize) {
